@@ -25,7 +25,15 @@ def _setup(m, ishape, mshape, weights='sym'):
     H, W = ishape
     ny, nx = mshape
     dt = object if m.sym else float
-    img = np.empty((H, W), dtype=dt)
+    if weights == 'view':
+        # the image is a VIEW of a larger array (a trimmed sub-image): neither it nor its parent may be written to
+        parent = np.empty((H + 2, W + 2), dtype=dt)
+        for idx in np.ndindex(*parent.shape):
+            parent[idx] = 1000.0 + idx[0] * 10 + idx[1]
+        img = parent[1:-1, 1:-1]
+        _setup.parent = parent
+    else:
+        img = np.empty((H, W), dtype=dt)
     for y in range(H):
         for x in range(W):
             img[y, x] = m.real(f'img_{y}_{x}')
@@ -112,9 +120,10 @@ def h_cutout(ishape, mshape, copy, m):
         m.require('partial overlap: a new array', not np.shares_memory(out, img))
 
 
-def h_multiply(ishape, mshape, m):
+def h_multiply(ishape, mshape, m, view=False):
     _shims(m)
-    img, w, x0, y0, mask = _setup(m, ishape, mshape)
+    img, w, x0, y0, mask = _setup(m, ishape, mshape, weights='view' if view else 'sym')
+    parent_before = _cells(_setup.parent) if view else None
     H, W = ishape
     ny, nx = mshape
     before = _cells(img)
@@ -123,6 +132,8 @@ def h_multiply(ishape, mshape, m):
     ov = _overlap(x0, y0, nx, ny, W, H)
     m.require('multiply is None exactly when box and image share no pixel', Iff(out is None, Not(ov)))
     m.require('the input image is not modified', _same_cells(img, before))
+    if view:
+        m.require('the array the input image is a view of is not modified', _same_cells(_setup.parent, parent_before))
     if out is None:
         return
     X0, Y0 = _conc(x0), _conc(y0)
@@ -257,6 +268,8 @@ def harnesses(tier):
         hs.append((f'cutout/{tag}/view', P(h_cutout, ish, msh, False)))
         hs.append((f'cutout/{tag}/copy', P(h_cutout, ish, msh, True)))
         hs.append((f'multiply/{tag}', P(h_multiply, ish, msh)))
+        if (ish, msh) in (((2, 2), (2, 2)), ((2, 3), (1, 1))):
+            hs.append((f'multiply/{tag}/image-is-a-view', P(h_multiply, ish, msh, view=True)))
         hs.append((f'get_values/{tag}', P(h_get_values, ish, msh, None)))
         hs.append((f'get_values/{tag}/usermask', P(h_get_values, ish, msh, [(0, 0), (1, 1)])))
     hs.append(('errors', h_mask_errors))
@@ -274,7 +287,7 @@ META = {
     'bounds': {'quick': {'image x mask shapes': '2x3/1x1, 2x2/2x2, 1x2/2x1, 0x3/1x1, 2x0/2x2',
                          'box position': 'unbounded symbolic integers (the solver enumerates the overlapping positions; one symbolic path for all non-overlapping ones)',
                          'pixel values, weights in [0,1], fill value': 'symbolic reals; zero pattern of the weights by path forking',
-                         'dtype cases': 'int / float / Quantity data x fill in {0, 7.5, nan, inf} x 56 box positions (executed)'},
+                         'views': 'multiply with the image a view of a larger array (2x2/2x2, 2x3/1x1): parent untouched', 'dtype cases': 'int / float / Quantity data x fill in {0, 7.5, nan, inf} x 56 box positions (executed)'},
                'thorough': {'image x mask shapes': 'adds 3x3/2x2, 2x2/3x2 (mask larger than image), 3x2/1x3, 1x1/2x2 (2x2/3x3 exceeds the path cap: 2^9 weight patterns x positions)'}},
     'outside_claim': ['larger shapes', 'numpy dtype promotion rules beyond the enumerated dtype/fill table',
                       'symbolic fill values that are non-finite (covered only in the executed dtype table)'],
